@@ -425,11 +425,21 @@ def c11_tensors(case):
         e2 = ev[0] * ev[1] + ev[1] * ev[2] + ev[2] * ev[0]
         if not (np.isclose(I1, ev.sum().real) and np.isclose(I2, e2.real) and np.isclose(I3, np.prod(ev).real)):
             problems.append(f"invariants_second_order != elementary symmetric functions of the eigenvalues (I2 {I2:.4f} vs {e2.real:.4f})")
-        for left in (True, False):
-            Rm, S = T.polar_decompose(A, left=left)
+        # "all real 3x3 matrices": every magnitude (velocity gradients are ~1e-15 /s in SI units), singular and reflected ones
+        # for the left variant; comparisons are relative to the size of the input
+        cases = [(A * sc, lf) for sc in (1.0, 1e3, 1e-6, 1e-11, 1e-15) for lf in (True, False)]
+        cases += [(np.outer(A[0], A[1]), True), (A @ np.diag([1.0, 1.0, -1.0]), True), (np.array([[0.0, 2e-15, 0], [0, 0, 0], [0, 0, 0]]), True)]
+        for B, left in cases:
+            sz = np.abs(B).max()
+            try:
+                Rm, S = T.polar_decompose(B, left=left)
+            except Exception as e:  # noqa: BLE001
+                problems.append(f"polar_decompose(left={left}) raised {type(e).__name__} for a matrix of size {sz:.0e}")
+                continue
             prod = S @ Rm if left else Rm @ S
-            if not (np.allclose(Rm @ Rm.T, np.eye(3)) and np.allclose(S, S.T) and np.allclose(prod, A) and np.linalg.eigvalsh(S).min() > -1e-12):
-                problems.append(f"polar_decompose(left={left})")
+            if not (np.allclose(Rm @ Rm.T, np.eye(3), atol=1e-9) and np.allclose(S, S.T, rtol=0, atol=1e-9 * sz) and np.allclose(prod, B, rtol=0, atol=1e-9 * sz)
+                    and np.linalg.eigvalsh((S + S.T) / 2).min() > -1e-9 * sz):
+                problems.append(f"polar_decompose(left={left}) for a matrix of size {sz:.0e}")
     return {"reproduced": bool(problems), "detail": sorted(set(problems))[:6] or "tensor representations consistent on the replay inputs"}
 
 
@@ -750,12 +760,14 @@ def c03_rates(case):
     n = 10
     vols = [np.full(n, 1 / n), rng.dirichlet(np.ones(n)), np.r_[0.0, 0.0, rng.dirichlet(np.ones(n - 2))], np.r_[0.91, np.full(n - 1, 0.01)]]
     flows = [(L, D), (np.diag([1.0, -0.5, -0.5]), np.diag([1.0, -0.5, -0.5]))]  # general flow; axial compression (aligned grains resolve no slip)
-    for (ph, fb), rg, f, (L, D) in it.product([("olivine", "olivine_A"), ("olivine", "olivine_C"), ("olivine", "olivine_E"), ("enstatite", "enstatite_AB")], (4, 6), vols, flows):
+    # the spin of the deformation gradient is an input of the solver too (ignored by the dislocation-type regimes): zero and a general matrix
+    spins = [np.zeros((3, 3)), np.array([[0.2, 0.9, -0.4], [-0.7, 0.1, 0.5], [0.3, -0.6, -0.3]])]
+    for (ph, fb), rg, f, (L, D), spin in it.product([("olivine", "olivine_A"), ("olivine", "olivine_C"), ("olivine", "olivine_E"), ("enstatite", "enstatite_AB")], (4, 6), vols, flows, spins):
         A = np.concatenate([Rotation.random(n - 2, random_state=3).as_matrix(), np.eye(3)[None], np.diag([-1.0, 1.0, -1.0])[None]])
         args = (rg, getattr(core.MineralPhase, ph), getattr(core.MineralFabric, fb), n)
 
         def run(M=125.0, phi=1.0):
-            return core.derivatives(*args, A.copy(), f.copy(), D, L, np.zeros((3, 3)), 1.5, 3.5, 5.0, M, phi)
+            return core.derivatives(*args, A.copy(), f.copy(), D, L, spin.copy(), 1.5, 3.5, 5.0, M, phi)
 
         try:
             dA, df = run()
@@ -776,7 +788,7 @@ def c03_rates(case):
             problems.append(f"{fb}/regime {rg}: volume rates not linear in mobility / phase fraction")
         # growth criterion: energies recovered from a uniform-volume run (df_i = phi M f_i (Emean - E_i))
         fu = np.full(n, 1 / n)
-        dfu = core.derivatives(*args, A.copy(), fu, D, L, np.zeros((3, 3)), 1.5, 3.5, 5.0, 125.0, 1.0)[1]
+        dfu = core.derivatives(*args, A.copy(), fu, D, L, spin.copy(), 1.5, 3.5, 5.0, 125.0, 1.0)[1]
         damp = 0.3 if rg == 6 else 1.0
         rel = -dfu / (damp * 125.0 / n)  # E_i - mean(E)
         wmean = float(f @ rel)
